@@ -97,6 +97,11 @@ func (p *parser) errorUnexpected(idx file.Idx, chr rune) {
 }
 
 func (p *parser) errorUnexpectedToken(tkn token.Token) {
+	p.errorUnexpectedTokenAt(p.idx, tkn, p.literal)
+}
+
+// errorUnexpectedTokenAt reports a token that has already been consumed.
+func (p *parser) errorUnexpectedTokenAt(idx file.Idx, tkn token.Token, literal string) {
 	if tkn == token.EOF {
 		p.error(file.Idx(0), errUnexpectedEndOfInput)
 		return
@@ -104,18 +109,18 @@ func (p *parser) errorUnexpectedToken(tkn token.Token) {
 	value := tkn.String()
 	switch tkn {
 	case token.BOOLEAN, token.NULL:
-		p.error(p.idx, errUnexpectedToken, p.literal)
+		p.error(idx, errUnexpectedToken, literal)
 	case token.IDENTIFIER:
-		p.error(p.idx, "Unexpected identifier")
+		p.error(idx, "Unexpected identifier")
 	case token.KEYWORD:
 		// TODO Might be a future reserved word
-		p.error(p.idx, "Unexpected reserved word")
+		p.error(idx, "Unexpected reserved word")
 	case token.NUMBER:
-		p.error(p.idx, "Unexpected number")
+		p.error(idx, "Unexpected number")
 	case token.STRING:
-		p.error(p.idx, "Unexpected string")
+		p.error(idx, "Unexpected string")
 	default:
-		p.error(p.idx, errUnexpectedToken, value)
+		p.error(idx, errUnexpectedToken, value)
 	}
 }
 
